@@ -13,8 +13,8 @@ use serde_json::json;
 use std::collections::{BTreeMap, BTreeSet};
 use std::time::Instant;
 
-const DIRS: &[&str] = &["", "", "", "pkg", "pkg/deep", "lib v2", "lib [v2]", "Ünï", "a.b", "pkg/deep/er", "target", "build", "tests", "src", ".cfg", "_gen", "srcx", "arch.mamba"];
-const BASES: &[&str] = &["alpha", "beta", "my file", "v1.2", "Ünï", "UPPER", "9lives", "x-y", "m_1", "zed", "ALPHA", "__init__", "a+b", ".hidden", "_private", "a b c", "très", "target", "src", "x.mamba.bak"];
+const DIRS: &[&str] = &["", "", "", "pkg", "pkg/deep", "lib v2", "lib [v2]", "Ünï", "a.b", "pkg/deep/er", "target", "build", "tests", "src", ".cfg", "_gen", "srcx", "arch.mamba", "w\\in"];
+const BASES: &[&str] = &["alpha", "beta", "my file", "v1.2", "Ünï", "UPPER", "9lives", "x-y", "m_1", "zed", "ALPHA", "__init__", "a+b", ".hidden", "_private", "a b c", "très", "target", "src", "x.mamba.bak", "back\\slash"];
 const EXT_MODULES: &[(&str, &[&str])] = &[("ipaddress", &["IPv4Address", "IPv6Address", "ip_network", "IPv4Network"]), ("decimal", &["Decimal", "Inexact", "Rounded"]), ("pathlib", &["Path", "PurePath", "PosixPath"])];
 const ROOTS: &[&str] = &["proj", "proj", "my proj", "prøj", "p.r.o.j", "P1"];
 const ROOTS_GLOB: &[&str] = &["pq [x]", "a*b", "q?z", "br{a,b}"];
@@ -52,6 +52,13 @@ fn gen_project(rng: &mut Rng, fenced: &BTreeSet<String>, builtins: &BTreeSet<Str
         let other_dirs: Vec<&&str> = DIRS.iter().filter(|d| **d != dir_i).collect();
         let d = **rng.pick(&other_dirs);
         paths[j] = if d.is_empty() { base } else { format!("{d}/{base}") };
+    }
+    // sometimes a file or directory name that is not UTF-8 (legal on Linux; U+F8FF in the
+    // scenario stands for the byte 0xFF)
+    if !fenced.contains("non_utf8_file_name") && rng.chance(1, 8) {
+        let i = rng.below(n as u64) as usize;
+        let b = crate::c13::BAD_BYTE;
+        paths[i] = if rng.chance(1, 3) { format!("d{b}r/{}", std::path::Path::new(&paths[i]).file_name().unwrap().to_string_lossy()) } else { paths[i].replacen(".mamba", &format!("{b}.mamba"), 1) };
     }
     // sometimes two paths that differ only in case (in the file name or in a directory name)
     if n >= 2 && rng.chance(1, 6) {
@@ -550,7 +557,12 @@ pub fn gen_and_run(seed: u64, index: u64, scratch: &str, cfg: &GenCfg, fenced: &
             layout.src = Some("custom_src".into());
             layout.target = Some("out".into());
         }
-        5 => layout.src_file = Some(rng.pick(&files).path.clone()),
+        5 => {
+            let f = rng.pick(&files).path.clone();
+            if !f.contains(crate::c13::BAD_BYTE) {
+                layout.src_file = Some(f);
+            }
+        }
         _ => {}
     }
     if layout.src.as_deref() == Some(".") {
@@ -845,7 +857,7 @@ pub fn gen_and_run(seed: u64, index: u64, scratch: &str, cfg: &GenCfg, fenced: &
                     continue;
                 }
                 let o = InputOverride {
-                    src_file: if sc.layout.src_file.is_some() { None } else if rng.chance(2, 3) { Some(rng.pick(&cur_files).path.clone()) } else { None },
+                    src_file: if sc.layout.src_file.is_some() { None } else if rng.chance(2, 3) { Some(rng.pick(&cur_files).path.clone()).filter(|f| !f.contains(crate::c13::BAD_BYTE)) } else { None },
                     annotate: if rng.chance(1, 2) { !sc.annotate } else { sc.annotate },
                 };
                 let mut t = transpile(&mut rng, &h, cfg.cli_permille);
